@@ -77,10 +77,12 @@ class Sodium(material.Fluid):
         g = 511.58
         h = 0.5
         Tcrit = 2503.7  # critical temperature
+        # at the critical temperature (the upper end of the valid range) round-off in the
+        # Celsius-to-Kelvin conversion can make this a tiny negative number, whose square root
+        # would be complex
+        reducedT = max(0.0, 1 - (Tc + 273.15) / Tcrit)
         return (
-            critDens
-            + f * (1 - (Tc + 273.15) / Tcrit)
-            + g * (1 - (Tc + 273.15) / Tcrit) ** h
+            critDens + f * reducedT + g * reducedT**h
         ) / 1000.0  # convert from kg/m^3 to g/cc.
 
     def specificVolumeLiquid(self, Tk=None, Tc=None):
